@@ -726,7 +726,7 @@ def written(fmt, path, datas, sig=True, max_edges=12000):
 def family_writers(r, wd, tag, datas, sig=True, key='writers'):
     """byte blocks -> real write_tap and write_pzx; both parsed back (round trip), data must agree"""
     tap, pzx = os.path.join(wd, tag + '.tap'), os.path.join(wd, tag + '.pzx')
-    return dict(kind='files', key=key, same=0, samedata=1, lens=[len(d) for d in datas],
+    return dict(kind='files', key=key, same=2 if sig and all(datas) else 0, samedata=1, lens=[len(d) for d in datas],
                 files=[written('tap', tap, datas, sig), written('pzx', pzx, datas, sig)])
 
 
